@@ -9,6 +9,21 @@ def optVars (j : Json) : Except String (Option (List (String × Rat))) :=
   | .null => pure none
   | _ => do pure (some (← jAssoc jRat j))
 
+def jBool (j : Json) : Except String Bool :=
+  match j with
+  | .bool b => pure b
+  | _ => .error "expected a boolean"
+
+/-- the nine `include_*` flags as a list of booleans in `get_arg_names` keyword order
+    (time, variables, parameters, derived_parameters, derived_variables, reactions,
+    surrogate_variables, surrogate_fluxes, readouts) -/
+def flags (j : Json) : Except String ArgFlags := do
+  match ← jList jBool j with
+  | [a, b, c, d, e, f, g, h, i] =>
+      pure { time := a, variables := b, parameters := c, derivedParameters := d, derivedVariables := e,
+             reactions := f, surrogateVariables := g, surrogateFluxes := h, readouts := i }
+  | _ => .error "expected nine flags"
+
 def query (c : Content) (q : Json) : Except String Json := do
   match ← jArr q with
   | [.str "init"] => pure (resJ (assocJ ratJ) (Mxl.getInit c))
@@ -23,7 +38,12 @@ def query (c : Content) (q : Json) : Except String Json := do
   | [.str "classes"] => pure (resJ (fun p => Json.arr #[strsJ p.1, strsJ p.2]) (Mxl.getClasses c))
   | [.str "args", v, t] => pure (resJ (assocJ ratJ) (Mxl.getArgs c (← optVars v) (← jRat t)))
   | [.str "fluxes", v, t] => pure (resJ (assocJ ratJ) (Mxl.getFluxes c (← optVars v) (← jRat t)))
-  | [.str "rhs", v, t] => pure (resJ (assocJ ratJ) (Mxl.getRhsQ c (← optVars v) (← jRat t)))
+  | [.str "rhs", v, t] =>
+      -- an explicit state goes through `getRhs` (= `get_right_hand_side(variables, time)`, the function of
+      -- `C01_entry_points_agree`), the default state through `getRhsQ`
+      match ← optVars v with
+      | some vars => pure (resJ (assocJ ratJ) (Mxl.getRhs c vars (← jRat t)))
+      | none => pure (resJ (assocJ ratJ) (Mxl.getRhsQ c none (← jRat t)))
   | [.str "call", t, xs] => pure (resJ ratsJ (Mxl.callRhs c (← jRat t) (← jList jRat xs)))
   | [.str "stoichvar", v, t, x] =>
       pure (resJ (assocJ ratJ) (Mxl.getStoichOfVar c (← jStr x) (← optVars v) (← jRat t)))
@@ -36,6 +56,13 @@ def query (c : Content) (q : Json) : Except String Json := do
         | .error e => .error e
       let rowsJ := fun (x : List (List (String × Rat))) => Json.arr (x.map (assocJ ratJ)).toArray
       pure (Json.mkObj [("args", resJ rowsJ a), ("fluxes", resJ rowsJ f), ("rhs", resJ rowsJ r)])
+  | [.str "argsf", v, t, fl] =>
+      pure (resJ (assocJ ratJ) (Mxl.getArgsSel c (← optVars v) (← jRat t) (← flags fl)))
+  | [.str "argnames", fl] => pure (resJ strsJ (Mxl.getArgNamesQ c (← flags fl)))
+  | [.str "argsftc", rows, fl] => do
+      let rs ← jList (jPair jRat (jAssoc jRat)) rows
+      let rowsJ := fun (x : List (List (String × Rat))) => Json.arr (x.map (assocJ ratJ)).toArray
+      pure (resJ rowsJ (Mxl.getArgsSelTC c rs (← flags fl)))
   | [.str "stoich", v, t] =>
       pure (resJ (assocJ (assocJ ratJ)) (Mxl.getStoich c (← optVars v) (← jRat t)))
   | _ => .error s!"bad query {q.compress}"
